@@ -474,3 +474,14 @@ func fvname(fv *ssa.FreeVar) string {
 	})
 	return name
 }
+
+var baselineFieldTypes map[string]map[string]string
+
+// baselineFieldType: the type the baseline records for struct field pkg|Type.field ("" when unknown).
+func baselineFieldType(pkgSuffix, typeName, field string) string {
+	if baselineFieldTypes == nil {
+		baselineFieldTypes = map[string]map[string]string{}
+		_ = json.Unmarshal(baselineFieldsJSON, &baselineFieldTypes)
+	}
+	return baselineFieldTypes[pkgSuffix+"|"+typeName][field]
+}
